@@ -190,11 +190,18 @@ var readFault func(store, key string) error
 
 func SetReadFault(f func(store, key string) error) { hookMu.Lock(); readFault = f; hookMu.Unlock() }
 
+// writeFault (persistent until cleared): consulted by every write group before it is applied; true = this write group
+// fails with ErrInject and nothing of it is applied (an injected storage write fault aimed at one store / one write
+// of an operation, where FailAt counts write groups of the whole process).
+var writeFault func(store string) bool
+
+func SetWriteFault(f func(store string) bool) { hookMu.Lock(); writeFault = f; hookMu.Unlock() }
+
 func SetBeforeWrite(f func(store string))    { hookMu.Lock(); beforeWrite = f; hookMu.Unlock() }
 func SetOnIter(f func(store, prefix string)) { hookMu.Lock(); onIter = f; hookMu.Unlock() }
 func ClearHooks() {
 	hookMu.Lock()
-	beforeWrite, onIter, readFault = nil, nil, nil
+	beforeWrite, onIter, readFault, writeFault = nil, nil, nil, nil
 	hookMu.Unlock()
 }
 
@@ -202,15 +209,17 @@ func (s *Store) commit(ops []Op) error {
 	hookMu.Lock()
 	h := beforeWrite
 	beforeWrite = nil
+	wf := writeFault
 	hookMu.Unlock()
 	if h != nil {
 		h(s.Path)
 	}
+	inject := wf != nil && wf(s.Path)
 	mu.Lock()
 	defer mu.Unlock()
 	n := seq
 	seq++
-	if n == FailAt {
+	if n == FailAt || inject {
 		return ErrInject
 	}
 	for _, o := range ops {
